@@ -37,7 +37,12 @@ def run(ck, progs):
     ck.rule("C08.3", "control-message dispatch and the control-message table cover every control code")
     ck.rule("C08.4", "LP_FINI is dispatched exactly once per LP on every path of process_lp_fini")
     ck.rule("C08.5", "the counter a thread's vote depends on is conserved (a spurious increment would make the run never end): C07.1")
+    ck.rule("C08.6", "a copy of the thread count kept in shared state (vote counter) is taken after the last point where the runtime changes it")
+    ck.rule("C08.7", "RootsimStop on the parallel runtime sends every rank at least as many termination notices as it is waiting for")
     for cfg, P in progs.items():
+        _after_node_barrier(ck, P, cfg)
+        _thread_count_copies(ck, P, cfg)
+        _stop(ck, P, cfg)
         _uniform(ck, P, cfg)
         _stepping(ck, P, cfg)
         _dispatch(ck, P, cfg)
@@ -239,3 +244,102 @@ def _fini_once(ck, P, cfg):
         ck.holds("C08.4", "lp-fini-once", finis[0].where, "dispatcher(%s, ..., LP_FINI, ...) exactly once on every path" % X.show(a[0]), cfg)
     else:
         ck.violated("C08.4", "lp-fini-once", f.where, "LP_FINI is not dispatched exactly once per LP (%d call sites)" % len(finis), cfg)
+
+
+def _after_node_barrier(ck, P, cfg):
+    """After `if(leader) mpi_node_barrier()` the other threads of the rank must wait (second thread barrier) before they
+    step the GVT automaton or process messages again: otherwise they run ahead of ranks that have not reached their barrier."""
+    for c in [c for c in P.callers("mpi_node_barrier") if c.fn.file.startswith("src/")]:
+        f = c.fn
+        g = f.cfg
+        elect = [b for b in f.calls(BARRIER) if any(core is b or b.is_inside(core) or core.is_inside(b) for core, B in Q.control_dependences(f, c))]
+        if not elect:
+            continue
+        b1 = elect[0]
+        later = [x for x in f.calls() if x.callee in ("gvt_phase_run", "process_msg", "mpi_remote_msg_drain", "mpi_remote_msg_handle") and g.dominates(b1, x)]
+        inst = "rejoin-after-node-barrier@%s" % f.name
+        if not later:
+            ck.holds("C08.1", inst, c.where, "no protocol step follows in this function", cfg)
+            continue
+        others = {b.id for b in f.calls(BARRIER) if b is not b1}
+        w = g.escapes(g.position(b1), others, goal="none", goal_ids={x.id for x in later})
+        if w:
+            ck.violated("C08.1", inst, c.where, "while the leader is inside the node barrier the other threads of the rank already step the GVT protocol (%s): they can start and wait in a round that ranks still before their barrier cannot join yet, and the leader is not there to take part" % witness_text(f, w), cfg)
+        else:
+            ck.holds("C08.1", inst, c.where, "every thread passes a second thread barrier before the next protocol step", cfg)
+
+
+def _thread_count_copies(ck, P, cfg):
+    writers = set()
+    for f, node, kind in Q.field_accesses(P, "simulation_configuration", "n_threads"):
+        if kind in ("write", "rmw-plain") and f.name != "RootsimInit":
+            writers.add(f.name)
+    copiers = {}
+    for f in P.all_functions():
+        if not f.file.startswith("src/"):
+            continue
+        for n in f.walk():
+            val = None
+            if n.k == "AtomicExpr" and Q.atomic_kind(n) == "store" and len(n.children) > 1:
+                val = n.children[1]
+            elif n.k == "BinaryOperator" and n.op == "=":
+                t = X.strip(n.children[0])
+                if t.k == "DeclRefExpr" and t.d.get("sc") in ("file_static", "global", "extern"):
+                    val = n.children[1]
+            if val is not None and X.show(val) == "global_config.n_threads":
+                copiers.setdefault(f.name, n)
+    n = 0
+    for cname, node in copiers.items():
+        for c in P.callers(cname):
+            g = c.fn
+            for w in writers:
+                ws = list(g.calls(w))
+                if not ws:
+                    continue
+                n += 1
+                inst = "thread-count-copy:%s" % cname
+                if all(g.cfg.dominates(x, c) for x in ws):
+                    ck.holds("C08.6", inst, c.where, "%s() copies the thread count after %s() may have lowered it" % (cname, w), cfg)
+                else:
+                    ck.violated("C08.6", inst, c.where, "%s() copies global_config.n_threads (%s) before %s() may lower it (fewer LPs than threads): the copy is never reached by the votes of the threads that actually run, so the run never ends" % (
+                        cname, X.show(node)[:60], w), cfg)
+    if not n:
+        ck.inconclusive("C08.6", "thread-count-copy", "", "no stored copy of the thread count is ordered against a writer in one function", cfg)
+
+
+def _stop(ck, P, cfg):
+    f = P.fn("RootsimStop")
+    TERM = P.enum_const("MSG_CTRL_TERMINATION")
+    bs = [c for c in f.calls("mpi_control_msg_broadcast") if X.const_int(X.callee_args(c)[0]) == TERM]
+    inst = "stop-notifies-all-ranks"
+    if not bs:
+        ck.violated("C08.7", inst, f.where, "RootsimStop does not broadcast the termination notice on the parallel runtime: the other ranks (whose configuration this call cannot change) never stop", cfg)
+        return
+    b = bs[0]
+    paths, _ = Q.path_conditions(f, b)
+    par = all(any("serial" in X.show(core) and t is False for core, t in conds) or not any("serial" in X.show(core) for core, t in conds) for conds in paths)
+    lp = b
+    while lp is not None and lp.k not in ("WhileStmt", "ForStmt", "DoStmt"):
+        lp = lp.parent
+    count_ok = None
+    if lp is not None and lp.k == "WhileStmt":
+        core = X.strip([x for x in lp.children if x.k != "Null"][0])
+        if core.k == "UnaryOperator" and core.op == "--" and core.postfix:
+            v = X.strip(core.children[0])
+            for d in f.walk():
+                if d.k == "VarDecl" and d.name == v.name and d.children:
+                    init = X.strip(d.children[0])
+                    if init.k == "DeclRefExpr" and init.name == "n_nodes":
+                        count_ok = (True, "n_nodes")
+                    elif init.k == "BinaryOperator" and init.op == "+" and X.show(init.children[0]) == "n_nodes" and (X.const_int(init.children[1]) or 0) >= 0:
+                        count_ok = (True, X.show(init))
+                    elif X.const_int(init) is not None:
+                        count_ok = (False, str(X.const_int(init)))
+    if not par:
+        ck.violated("C08.7", inst, b.where, "the termination broadcast of RootsimStop is not on the parallel path", cfg)
+    elif count_ok is None:
+        ck.inconclusive("C08.7", inst, b.where, "number of termination notices not recognised", cfg)
+    elif count_ok[0]:
+        ck.holds("C08.7", inst, b.where, "%s broadcasts: every rank's counter of %s pending ranks reaches zero whatever was already received" % (count_ok[1], "n_nodes"), cfg)
+    else:
+        ck.violated("C08.7", inst, b.where, "only %s termination broadcast(s): a rank waiting for n_nodes notices keeps running" % count_ok[1], cfg)
